@@ -7,6 +7,14 @@ from pyvc import sdmodel as M
 from . import sd_inv as S
 
 SD = HeapParam("SD")
+
+
+def split_and(name, conj):
+    """a conjunction as separately named (and separately discharged, cumulative) clauses"""
+    if z3.is_and(conj):
+        return [(f"{name}.{k}", g) for k, g in enumerate(conj.children())]
+    return [(name, conj)]
+
 OI = TOpt(TInt)
 LI = M.LI
 SI = TSet(TInt)
@@ -155,7 +163,7 @@ def install_skipnode(reg):
                 v.K == o.K, S.frame_nodes(v, o, fields=NODEF + ("succsig", "depth")), S.frame_edges(v, o), v.index == o.index))),
             ("becomes_skip_node_with_caches_discarded", z3.Implies(z3.Not(o.expanded[n]), z3.And(
                 v.expanded[n], v.skipped[n], cleared(v, n), v.space[n] == o.space[n]))),
-            ("others", others(v, o, n, c.all_minimal_traps)),
+            *split_and("others", others(v, o, n, c.all_minimal_traps)),
         ] + [("inv." + nm, g) for nm, g in S.inv(v)]
 
     def loop(c):
@@ -163,10 +171,10 @@ def install_skipnode(reg):
         return [("inv." + nm, g) for nm, g in S.inv(v, exempt=n)] + [
             ("node_in_progress", z3.And(z3.Not(v.expanded[n]), z3.Not(v.skipped[n]), cleared(v, n), v.space[n] == o.space[n], S.valid(v, n))),
             ("signature_so_far", v.succsig[n] == S.FoldSigF(N(o), c.all_minimal_traps, o.space[n], c.i)),
-            ("others", others(v, o, n, c.all_minimal_traps)),
+            *split_and("others", others(v, o, n, c.all_minimal_traps)),
         ]
 
-    names = ["noop_if_already_expanded", "becomes_skip_node_with_caches_discarded", "others"] + ["inv." + x for x in inv_names()]
+    names = ["noop_if_already_expanded", "becomes_skip_node_with_caches_discarded"] + [f"others.{k}" for k in range(10)] + ["inv." + x for x in inv_names()]
     reg.add(Contract(
         "biobalm._sd_algorithms.expand_minimal_spaces.expand_minimal_spaces.make_skip_node",
         params=[("sd", SD), ("node_id", TInt), ("all_minimal_traps", LS)],
